@@ -278,7 +278,7 @@ Definition mon_step (m : mon) (e : tev) : mon :=
       let is_poll := 2 <=? call in
       let m := chk m (list_eqb3 (user_interest interest) (expected_interest m is_poll)) 201 in
       let m := chk m (negb (a_quit m)) 704 in
-      let m := chk m (something_registered m) 705 in
+      let m := chk m (something_registered m || (timeout =? 0)) 705 in   (* a zero-timeout poll for the internal task of a self-post is harmless *)
       m_wait m true (a_clk m) call maxev timeout gnd
   | TRet None _ clk =>
       let m := m_wait m false (w_entry m) (w_call m) (w_max m) (w_to m) (w_gnd m) in
